@@ -9,6 +9,7 @@ prints one verdict line:
 (both DIFF and ORACLE parts may appear on one line, separated by " ;; ").
 Imports model and spec only — no proof modules, no Mathlib — so that it links.
 -/
+import PqlModel.Spec.ExpandAs
 import PqlModel.Model.Lex
 import PqlModel.Model.Parse
 import PqlModel.Model.Walk
@@ -114,6 +115,12 @@ def opsHaveJoin : OpList → Bool
   | .cons _ os => opsHaveJoin os
 end
 
+/-- the pipeline interpreter on the program with sources that name an earlier `as` result expanded
+    (`Spec/ExpandAs.lean`) -/
+def interpProgramX (src : Bytes) (db : Sql.DB) (stmts : List Stmt) : Option Sql.Table :=
+  let named := stmts.map fun | .tabular t => Stmt.tabular (Rel.nameTabular src t) | s => s
+  (CompileOracle.resolveLets named []).map fun t => Rel.interp src db (ExpandAs.expand t)
+
 /-- C02 / C03: evaluate the emitted SQL and the pipeline on small databases -/
 def evalOracle (src : Bytes) (seed : Nat) (impl : String) : List String :=
   match impl.splitOn " " with
@@ -123,7 +130,7 @@ def evalOracle (src : Bytes) (seed : Nat) (impl : String) : List String :=
     | some sql =>
       let parsed := parse src
       if !parsed.2.isEmpty then [] else
-      match CompileOracle.readSql sql with
+      match CompileOracle.readSqlAny sql with
       | none => ["c05-parse"]
       | some st =>
         let isJoin := parsed.1.any fun | .tabular t => tabularHasJoin t | _ => false
@@ -132,11 +139,11 @@ def evalOracle (src : Bytes) (seed : Nat) (impl : String) : List String :=
         let letNamedAlias := parsed.1.any fun
           | .let_ _ (some n) _ _ => n.name == leftAlias || n.name == rightAlias
           | _ => false
-        let tag := if CompileOracle.nameCapture parsed.1 then "c05-name-capture"
+        let tag := if ExpandAs.nameCapture parsed.1 then "c05-name-capture"
           else if letNamedAlias && isJoin then "c06-let-named-join-alias" else if isJoin then "c03" else "c02"
         let bad := (List.range 4).filterMap fun i =>
           let db := Rel.mkDB (seed + 1000 * i)
-          match Rel.interpProgram src db parsed.1 with
+          match interpProgramX src db parsed.1 with
           | none => none
           | some want =>
             let got := Sql.evalStatement db st
